@@ -831,7 +831,8 @@ func (fc *FnCtx) modelCall(st *State, e *ast.CallExpr, fn *types.Func, full stri
 		// -1, or a position inside the string (at most its length for the empty-substring case of Index)
 		r := fc.fresh("index", types.Typ[types.Int])
 		if full == "strings.Index" || full == "strings.LastIndex" {
-			fc.assumeGlobal(b("(and (>= %s (- 1)) (<= %s (strlen %s)))", r.S, r.S, args[0].S))
+			// a match of the substring lies inside the string
+			fc.assumeGlobal(b("(and (>= %s (- 1)) (<= %s (strlen %s)) (=> (>= %s 0) (<= (+ %s (strlen %s)) (strlen %s))))", r.S, r.S, args[0].S, r.S, r.S, args[1].S, args[0].S))
 		} else {
 			fc.assumeGlobal(b("(and (>= %s (- 1)) (< %s (strlen %s)))", r.S, r.S, args[0].S))
 		}
